@@ -2,6 +2,7 @@
 C06 — infix blocks mean what the precedence table says. (first part: table facts)
 -/
 import ZygoVerif.Model.Pratt
+import ZygoVerif.Generated.InfixHandlers
 import ZygoVerif.Model.LegacyPratt
 import ZygoVerif.Model.PrattGrammar
 import ZygoVerif.Spec.Stratified
@@ -387,5 +388,40 @@ example : okL exSrc = true ∧ exItems.map (·.2) = Src.flat (.block exSrc) ∧ 
   rw [exSx]; decide +kernel
 
 end LexSpacing
+
+/-! ## State of the Pratt machinery that outlives one interpreter (T1, Generated/InfixHandlers.lean)
+
+Symbols resolve by NUMBER and numbers differ between interpreters with different builtin sets, so the
+meaning of `{a[i]}` in interpreter A is a function of A alone only if nothing built from one interpreter
+(an interned symbol, a closure over `env`, a table) is parked where every interpreter of the process reads
+it. The extractor lists EVERY write to a package-level variable from every function of zygo/pratt.go and
+from the interpreter constructors (NewZlisp, NewZlispSandbox, NewZlispWithFuncs, Clone, Duplicate). -/
+namespace Handlers
+open ZygoVerif.Generated.InfixHandlers
+
+/-- the explicit allow-list: package-level variables the Pratt machinery and the constructors may write -/
+def allowedPackageVars : List String := ["arrayOp"]
+
+/-- what may be stored there: constants and bare top-level functions, mentioning nothing of the call -/
+def Store.stateless (s : Store) : Bool := (s.kind == "const" || s.kind == "funcIdent") && !s.usesLocal
+
+/-- **`package_level_state_allow_list`** — the package-level variables written by pratt.go / the constructors
+(and those declared in pratt.go) are exactly the allow-list. -/
+theorem package_level_state_allow_list :
+    (packageStores.map (·.var)).eraseDups = allowedPackageVars ∧ prattPackageVars = allowedPackageVars := by
+  decide +kernel
+
+/-- **`no_interpreter_state_in_package_level_handlers`** — no handler (or anything else) stored in a package-level
+variable by `InitInfixOps`/`NewZlisp*`/any function of pratt.go is a closure, the result of a call, or mentions a
+parameter, the receiver or a local of the storing function: per-interpreter data never flows into process-wide
+state. (The seeded change `arrayOp.MunchLeft = arrayOpMunchLeft(env.MakeSymbol("arrayidx"))` is `⟨…, "call", true⟩`.) -/
+theorem no_interpreter_state_in_package_level_handlers : packageStores.all Store.stateless = true := by
+  decide +kernel
+
+/-- non-vacuity: the table is not empty (the array operator is there) and the scan covered pratt.go -/
+example : packageStores.any (fun s => s.var == "arrayOp" && s.field == ".MunchLeft") = true ∧ scannedFunctions ≥ 40 := by
+  decide +kernel
+
+end Handlers
 
 end ZygoVerif.Pratt
